@@ -570,6 +570,18 @@ def main(chk: Check, replay: dict | None = None) -> int:
         stmt_cases = list(seen_stmt.values())
         cases += stmt_cases
 
+        # ---- 2b. the translator's "Unreachable" verdicts (static import closure) against what the generations above loaded
+        live = tables_C12.reachable_files()
+        src = tables_C12._src().resolve()
+        loaded_dead = sorted(
+            name for name, mod in list(sys.modules.items())
+            if name.startswith("pyopenapi_gen.") and getattr(mod, "__file__", None)
+            and Path(mod.__file__).resolve().is_relative_to(src) and Path(mod.__file__).resolve() not in live)
+        dist["unreachable_modules_loaded"] = loaded_dead
+        if loaded_dead:
+            chk.broken.append({"kind": "correspondence", "name": "tables_C12.reachable_files (static import closure)",
+                               "first": {"input": "modules classified unreachable but loaded during generation", "obs": loaded_dead}})
+
         # ---- 3. histories over a pre-existing (stale / damaged) shared core
         hist = []
         for i, lay in enumerate(HISTORY_LAYOUTS if chk.thorough else HISTORY_LAYOUTS[:2]):
